@@ -23,6 +23,7 @@ var replicaSideOps = map[string]string{
 }
 
 func c07(c *Ctx) {
+	c07PartialMessage(c, "C07.11/partial-message-is-never-enqueued")
 	// "a replica [reports a transaction committed] only after the primary did": with external commit allowance the store
 	// commits up to commitAllowedUpToTxID. Only AllowCommitUpto (driven by the primary's committed state / the acks)
 	// raises it; every other writer (re)starts it at the committed frontier, never at the precommitted one
@@ -557,4 +558,63 @@ func c07PrecommitBufferIndex(c *Ctx) {
 	if n < 3 {
 		c.undecided(r, "floor", fmt.Sprintf("%d id-addressed readAhead sites found (3 confirmed by hand)", n))
 	}
+}
+
+// c07PartialMessage: the stream receiver hands back what it got together with io.EOF when the stream ends in the
+// middle of a message. The replicator tolerates io.EOF from that call (a stream that ended between two messages), so
+// before anything is put on the queue of transactions to replicate there is a branch that, when the error is io.EOF
+// AND bytes were received, leaves without enqueuing: a fragment that is enqueued is retried forever and replication
+// never resumes.
+func c07PartialMessage(c *Ctx, r string) {
+	f := c.mustFn(r, "pkg/replication.(*TxReplicator).fetchNextTx")
+	if f == nil {
+		return
+	}
+	var sends []ssa.Instruction
+	allInstrs(f, false, func(in ssa.Instruction) {
+		if sd, ok := in.(*ssa.Send); ok && hasFieldSuffix(desc(sd.Chan), "prefetchTxBuffer") {
+			sends = append(sends, in)
+		}
+	})
+	if len(sends) == 0 {
+		c.undecided(r, fnName(f), "the send on prefetchTxBuffer was not found")
+		return
+	}
+	isEOFTest := func(v ssa.Value) bool {
+		cl, ok := v.(*ssa.Call)
+		return ok && calleeName(&cl.Call) == "errors.Is" && len(cl.Call.Args) == 2 && strings.Contains(desc(cl.Call.Args[1]), "EOF")
+	}
+	guarded := false
+	for _, eb := range f.Blocks {
+		if len(eb.Instrs) == 0 {
+			continue
+		}
+		eif, ok := eb.Instrs[len(eb.Instrs)-1].(*ssa.If)
+		if !ok || !isEOFTest(eif.Cond) || !eb.Dominates(sends[0].Block()) {
+			continue
+		}
+		// on the EOF edge: a test of the received length whose "bytes were received" edge never reaches the send
+		for _, lb := range f.Blocks {
+			if len(lb.Instrs) == 0 || !edgeDominates(eb, 0, lb) {
+				continue
+			}
+			lif, ok := lb.Instrs[len(lb.Instrs)-1].(*ssa.If)
+			if !ok {
+				continue
+			}
+			a, pol := normCond(lif.Cond)
+			if !strings.Contains(a, "len(") || !strings.Contains(a, "ReadFully") {
+				continue
+			}
+			for succ := 0; succ < 2; succ++ {
+				q := &pathQ{fn: f, fromEdges: []cfgEdge{{lb, succ}}, to: func(x ssa.Instruction) bool { _, isSend := x.(*ssa.Send); return isSend }}
+				if q.bypass() == nil {
+					guarded = true
+					_ = pol
+				}
+			}
+		}
+	}
+	c.check(guarded, r, fnName(f)+":eof-with-bytes-leaves-before-enqueue", c.pos(sends[0].Pos()), "when the receiver reports io.EOF together with bytes, the function leaves before the send on prefetchTxBuffer",
+		"io.EOF from ReadFully is tolerated and nothing tells a stream that ended between two messages from one that ended inside a message: the received fragment is enqueued as a transaction, replicateSingleTx retries it forever and replication does not resume")
 }
